@@ -92,7 +92,8 @@ UNROLL = 3
 
 
 class Engine:
-    def __init__(self, contracts, attr_kind=None):
+    def __init__(self, contracts, attr_kind=None, inline=False):
+        self.inline = inline  # translation cross-check mode: calls into pyrtcm are executed, not replaced by contracts
         self.contracts = contracts  # qualname -> Contract
         self.obligations = []
         self.cur = None  # FuncInfo being executed
@@ -623,10 +624,11 @@ class Engine:
         iterations.  Refutations found this way are real paths; a proof is not claimed."""
         outs = []
         live = [st]  # states whose test was true
-        for it in range(UNROLL + 1):
+        limit = 10 ** 6 if self.inline else UNROLL  # cross-check mode runs concrete loops to completion
+        for it in range(limit + 1):
             if not live:
                 break
-            if it == UNROLL:
+            if it == limit:
                 self.incomplete.append(f"{self.cur.qualname} while-loop #{k}: paths needing more than {UNROLL} iterations were not explored (no invariant)")
                 break
             nxt = []
@@ -653,7 +655,10 @@ class Engine:
     def unroll_for(self, node, st, it, k, lo, hi, elem):
         outs = []
         live = [st]
-        for j in range(UNROLL + 1):
+        limit = 10 ** 6 if self.inline else UNROLL
+        for j in range(limit + 1):
+            if not live:
+                break
             nxt = []
             for s in live:
                 idx = z3.simplify(lo + j)
@@ -661,7 +666,7 @@ class Engine:
                     if not b:
                         outs.append((s1, None))
                         continue
-                    if j == UNROLL:
+                    if j == limit:
                         self.incomplete.append(f"{self.cur.qualname} for-loop #{k}: paths needing more than {UNROLL} iterations were not explored (no invariant)")
                         continue
                     self.loop_ord = k + 1
@@ -961,7 +966,50 @@ class Engine:
             return self.call_qual(f.qualname, st, f, args, kwargs, site)
         return self.split(st, pybuiltin.call(self, st, f, args, kwargs))
 
+    def inline_call(self, qualname, st, selfv, args, kwargs):
+        """Execute the callee's real body (cross-check mode only)."""
+        fi = extract.func(qualname)
+        saved = (self.cur, self.cur_contract, self.loop_ord, getattr(self, "loop_ids", {}))
+        params = list(fi.params)
+        env = {}
+        if fi.clsname and not fi.is_static:
+            env[params[0]] = selfv
+            params = params[1:]
+        for p, a in zip(params, args):
+            env[p] = a
+        for k, v in kwargs.items():
+            env[k] = v
+        caller_env = st.env
+        for p in params:
+            if p not in env:
+                if p not in fi.defaults:
+                    return [(st, RaiseExc(TypeError, f"missing argument {p}"))]
+                self.cur = fi
+                r = self.ev(fi.defaults[p], st)
+                env[p] = r[0][1]
+        outs = []
+        try:
+            for s, c in self.exec_function(fi, st, env, contract=None):
+                s.env = dict(caller_env)
+                outs.append((s, c.v if isinstance(c, Return) else c))
+        finally:
+            self.cur, self.cur_contract, self.loop_ord, self.loop_ids = saved
+        return outs
+
     def call_qual(self, qualname, st, selfv, args, kwargs, site):
+        if self.inline:
+            if qualname.endswith(".__init__") and selfv is None:
+                cq = qualname[:-len(".__init__")]
+                o = HObject(cq)
+                mod, _, cls = cq.rpartition(".")
+                o.pycls = getattr(extract.module(mod), cls)
+                o.dynamic = True
+                o.symbolic_pre = False
+                o.pre = {}
+                ref = st.alloc(o)
+                return [(s, r if isinstance(r, RaiseExc) else ref) for s, r in self.inline_call(qualname, st, ref, args, kwargs)]
+            if qualname in extract.functions():
+                return self.inline_call(qualname, st, selfv, args, kwargs)
         c = self.contracts.get(qualname)
         if c is None:
             raise EngineUnsupported(f"call to {qualname}: no contract")
@@ -985,6 +1033,8 @@ class Engine:
             return [(st, PyBoundBuiltin(o, name))]
         if isinstance(o, (int, float)):
             return [(st, PyBoundBuiltin(o, name))]
+        if self.inline and not isinstance(o, (Sym, Ref)):
+            return [(st, PyBoundBuiltin(o, name))]  # cross-check mode: a real external object (BytesIO ...)
         raise EngineUnsupported(f"attribute {name} of {o!r}")
 
     def obj_getattr(self, st, ref, obj, name, default):
@@ -1100,6 +1150,10 @@ class Engine:
     def raw_store(self, st, o, name, v):
         obj = st.obj(o)
         name = norm(name)
+        if self.inline and isinstance(name, str):
+            obj.fields[name] = v
+            st.writes.add((o.oid, name))
+            return
         if getattr(obj, "abs", None) is not None and not (isinstance(name, str) and (name in obj.fields or name.startswith("_"))):
             raise EngineUnsupported(f"attribute store {name!r} on an abstract message state")
         if isinstance(name, str) and (name.startswith("_") or not getattr(obj, "dynamic", False)):
